@@ -41,7 +41,10 @@ def interop_b(args):
             aad = b"the aad \x00" if (ser != "compact" and i % 2) else None
             prot = {"alg": alg, "enc": enc, "cty": "t/x é"}
             if zp: prot["zip"] = "DEF"
-            if alg.startswith("PBES2"): prot["p2c"] = 8
+            if alg.startswith("PBES2"):
+                # values a peer may choose: the smallest salt input RFC 7518 allows (8 octets) upwards, small and usual counts
+                prot["p2c"] = [8, 1, 2, 1000][(i + len(ser)) % 4]
+                prot["p2s"] = R.b64e(rnd.randbytes([8, 9, 16, 33][(i // 2 + len(ser)) % 4])).decode()
             if alg.startswith("ECDH") and i % 2:
                 prot["apu"] = R.b64e(b"Alice \xff").decode(); prot["apv"] = R.b64e(b"Bob").decode()
             sps = spellings(prot)
@@ -52,7 +55,12 @@ def interop_b(args):
                 cnt += 1
                 try:
                     recs = [{"jwk": rj, "sender": sj, "where": "protected" if ser == "compact" or (nrec == 1 and (i + si) % 2) else "header"} for _ in range(nrec)]
-                    parts = R.jwe_encrypt(dict(prot), pt, recs, aad=aad, spell=spell)
+                    unprot = None
+                    p2 = dict(prot)
+                    if ser != "compact" and "apu" in p2 and (i + si) % 4 < 2:
+                        # party info travels in the shared unprotected header: it is part of the JOSE header all the same
+                        unprot = {"apu": p2.pop("apu"), "apv": p2.pop("apv")}
+                    parts = R.jwe_encrypt(p2, pt, recs, aad=aad, spell=spell, unprotected=unprot)
                     tok = R.jwe_compact(parts) if ser == "compact" else R.jwe_json(parts, flattened=(ser == "flattened"))
                 except Exception as e:  # noqa
                     bad.append((alg, enc, ser, spi, "machinery:" + repr(e)[:100], "")); continue
@@ -61,7 +69,7 @@ def interop_b(args):
                     o = jwe.decrypt_compact(tok, J.jkey(rj), registry=reg, **kw) if ser == "compact" else jwe.decrypt_json(tok, J.jkey(rj), registry=reg, **kw)
                     if o.plaintext != pt:
                         bad.append((alg, enc, ser, spi, "plaintext-differs", ""))
-                    elif any(o.protected.get(k) != v for k, v in prot.items()):
+                    elif any(o.protected.get(k) != v for k, v in p2.items()):
                         bad.append((alg, enc, ser, spi, "header-differs", json.dumps(o.protected)[:80]))
                 except Exception as e:  # noqa
                     bad.append((alg, enc, ser, spi, "rejected:" + type(e).__name__, str(e)[:80] + " | " + R.b64d(parts["protected"]).decode("utf-8")[:70]))
